@@ -104,3 +104,25 @@ def witness(run, viol):
                 f['input'] = f'native test {n} fails on this tree'
                 f['replay_cmd'] = f'append the module from /verif/native to the real source file in a scratch copy and run: cargo test --offline {n.split("::")[-1]}'
                 f['replay_output'] = exc
+
+
+def witness_on_undecided(run, reason):
+    """the verifier could not decide (unsupported construct, resource limit, lost anchor): a failing native test of the
+    property is still a concrete violation on the real code. Returns a list of failure dicts (possibly empty)."""
+    mods = load(run.prop)
+    if not mods: return []
+    try:
+        dst = build_copy(os.environ.get('UFLOW_REPO', '/repo'), run.scratch, mods)
+        res = run_tests(dst, mods, timeout=300)
+        shutil.rmtree(os.path.join(dst, 'target'), ignore_errors=True)
+    except Exception as e:
+        run.notes.append(f'witness search failed to run: {e}')
+        return []
+    out = []
+    for n, ok, exc in res:
+        if ok is False:
+            out.append({'engine': 'native', 'key': f'native:{n}', 'props': [run.prop], 'fn': n, 'msg': 'native witness test fails on this tree (verifier undecided: ' + reason[:160] + ')',
+                        'clause': None, 'where': n, 'src': '', 'rendered': exc, 'input': f'native test {n} (/verif/native)',
+                        'replay_cmd': f'append the module from /verif/native to the real source file in a scratch copy and run: cargo test --offline {n.split("::")[-1]}', 'replay_output': exc})
+    run.extra['witness_search'] = {'tests_run': [n for n, ok, _ in res if ok is not None], 'failing': [f['fn'] for f in out], 'trigger': 'undecided: ' + reason[:200]}
+    return out
